@@ -201,7 +201,7 @@ fn vst<T: Dom>(n: usize, k: usize, centered: bool) {
 
 /// which input stream a harness reads: free variables, or a shaped stream built from a few symbolic parameters
 #[derive(Clone, Copy, Debug, PartialEq)]
-pub enum Shape { Free, Decreasing, Increasing, AltThenFlat(usize) }
+pub enum Shape { Free, Decreasing, Increasing, AltThenFlat(usize), Alternating, Cycle3, Free3ThenFlat, FlatThenFree3(usize) }
 thread_local! { static SHAPE: std::cell::Cell<Shape> = const { std::cell::Cell::new(Shape::Free) }; }
 /// the t-th input under the current shape (all harnesses of this module draw their inputs through this)
 fn inp<T: Dom>(t: usize, prev: Option<T>) -> T {
@@ -211,6 +211,10 @@ fn inp<T: Dom>(t: usize, prev: Option<T>) -> T {
         Shape::Decreasing => match prev { None => T::input("x0"), Some(p) => { let d = T::input(&format!("posd{t}")); T::assume(lt(T::zero(), d)); p - d } },
         Shape::Increasing => match prev { None => T::input("x0"), Some(p) => { let d = T::input(&format!("posd{t}")); T::assume(lt(T::zero(), d)); p + d } },
         // a long alternating stretch, then a flat run, then free values: long-lived state meets ties
+        Shape::Alternating => T::input(if t % 2 == 0 { "a" } else { "b" }),
+        Shape::Cycle3 => T::input(["a", "b", "c"][t % 3]),
+        Shape::Free3ThenFlat => if t < 3 { T::input(&format!("x{t}")) } else { T::input("x2") },
+        Shape::FlatThenFree3(k) => if t + 3 < k { T::input("c") } else { T::input(&format!("x{t}")) },
         Shape::AltThenFlat(l) => if t < l { if t % 2 == 0 { T::input("a") } else { T::input("b") } } else if t < l + 5 { T::input("c") } else { T::input(&format!("x{t}")) },
     }
 }
@@ -290,13 +294,27 @@ pub fn units(tier: Tier, seed: u64) -> Vec<Unit> {
             u.push(unit!(format!("C02/Max/N={n}/k={k}/alt-then-flat"), minmax_s(n, k, true, sh)));
         }
     }
+    // windows of 10 and more on fully symbolic streams built from two or three parameters (ties between values a window apart are branches)
+    for &n in &(if tier == Tier::Quick { vec![10usize, 11] } else { vec![7usize, 10, 11, 13, 16] }) {
+        let k = n + 8;
+        for sh in [Shape::Alternating, Shape::Cycle3, Shape::Free3ThenFlat, Shape::FlatThenFree3(k)] {
+            u.push(unit!(format!("C02/Sma/N={n}/k={k}/{sh:?}"), sma_s(n, k, sh)));
+            u.push(unit!(format!("C02/Cumulative/N={n}/k={k}/{sh:?}"), cumulative_s(n, k, sh)));
+            u.push(unit!(format!("C02/Min/N={n}/k={k}/{sh:?}"), minmax_s(n, k, false, sh)));
+            u.push(unit!(format!("C02/Max/N={n}/k={k}/{sh:?}"), minmax_s(n, k, true, sh)));
+            u.push(unit!(format!("C02/WelfordOnline/N={n}/k={k}/{sh:?}"), welford_s(n, k, sh)));
+            u.push(unit!(format!("C02/HLNormalizer/N={n}/k={k}/{sh:?}"), hln_s(n, k, sh)));
+            u.push(unit!(format!("C02/Roc/N={n}/k={k}/{sh:?}"), roc_s(n, k, sh)));
+            u.push(unit!(format!("C02/Vsct/N={n}/k={k}/{sh:?}"), vst_s(n, k, true, sh)));
+        }
+    }
     for x in u.iter_mut().skip(first) { x.budget_s = if tier == Tier::Quick { 30.0 } else { 300.0 }; x.path_cap = 3000; x.max_decisions = 60000; }
     u
 }
 pub fn meta() -> Meta {
     Meta {
         functions: vec!["Sma::{update,last}", "Cumulative::{update,last}", "Min::{update,last}", "Max::{update,last}", "WelfordOnline::{update,last,mean,variance}", "HLNormalizer::{update,last}", "Roc::{update,last}", "BinaryEntropy::{update,last}", "Vst::{update,last}", "Vsct::{update,last}", "Echo::{update,last}"],
-        bounds: "window length N in {1,2,3} (quick) / {1..5} (thorough; HLNormalizer to 4); stream length k = 2N+2 so every value enters and leaves the window; inputs are unconstrained reals; every feasible outcome of every comparison the real code performs is explored; in addition every N in 4..10, 12, 16 at k=2N+2, (2,40),(3,60), and the boundary lengths 31,32,33,63,64,65 at k=N+6 for the cheap views (quick) / up to (32,66),(5,100) (thorough) along the comparison path of a pseudo-random sample input (larger windows, streams much longer than the window); and fully symbolic shaped long streams for N in {1,2,3} (quick) / {1,2,3,4,6}: strictly decreasing / increasing streams of length 10N+6 for Min/Max/HLNormalizer, and 8N+2 alternating values + a flat run of 5 + 2 free values for Sma/Cumulative/WelfordOnline/Vst/Vsct/Roc/Max",
+        bounds: "window length N in {1,2,3} (quick) / {1..5} (thorough; HLNormalizer to 4); stream length k = 2N+2 so every value enters and leaves the window; inputs are unconstrained reals; every feasible outcome of every comparison the real code performs is explored; in addition every N in 4..10, 12, 16 at k=2N+2, (2,40),(3,60), and the boundary lengths 31,32,33,63,64,65 at k=N+6 for the cheap views (quick) / up to (32,66),(5,100) (thorough) along the comparison path of a pseudo-random sample input (larger windows, streams much longer than the window); and fully symbolic shaped long streams for N in {1,2,3} (quick) / {1,2,3,4,6}: strictly decreasing / increasing streams of length 10N+6 for Min/Max/HLNormalizer, and 8N+2 alternating values + a flat run of 5 + 2 free values for Sma/Cumulative/WelfordOnline/Vst/Vsct/Roc/Max; and N in {10,11} (quick) / {7,10,11,13,16} on alternating / period-3 / three-free-then-flat / flat-then-three-free symbolic streams",
         outside: vec!["N > 5, streams longer than 2N+2", "the f64 clause ('differs only by rounding noise'): obligations are decided over the reals", "overflow, -0.0, subnormals"],
         assumptions: vec!["BinaryEntropy: log2 of the (concrete, per-path) window fraction is evaluated with the platform libm and compared to 1e-12"],
     }
